@@ -567,6 +567,8 @@ class Emitter:
         """value-position translation"""
         k = e[0]
         cfg = self.cfg
+        if k in ("tfield", "field", "index") and self.rust_text(e) in cfg.get("exprs", {}):
+            return cfg["exprs"][self.rust_text(e)]
         if k == "num":
             return int_literal(e[1])
         if k == "paren":
@@ -796,6 +798,22 @@ class Emitter:
                     var = self.v(s[1][1])
                     return (f"let out := out ++ ({self.cfg['iters'][key]}).map (fun {var} => ({bw[1]}, {bw[2]}))\n"
                             f"{cont(scope)}")
+        if kind == "for" and self.cfg.get("writes") and self.rust_text(s[2]) in self.cfg.get("iters", {}) and s[1][0] == "pvar":
+            # a loop over a slice whose body writes and updates local variables: a left fold over the
+            # list, carrying `out` and the variables the body assigns
+            var = self.v(s[1][1])
+            assigned = []
+            for st in s[3][1]:
+                if st[0] == "assign" and st[2][0] == "path" and len(st[2][1]) == 1 and st[2][1][0] != "written":
+                    n = self.v(st[2][1][0])
+                    if n not in assigned:
+                        assigned.append(n)
+            muts = ["out"] + assigned
+            tup = "(" + ", ".join(muts) + ")"
+            body_text = self.stmts(s[3][1], lambda sc: tup, scope + [s[1][1]])
+            lst = self.cfg["iters"][self.rust_text(s[2])]
+            return (f"let {tup} := ({lst}).foldl (fun {tup} {var} =>\n{indent(body_text, 4)}) {tup}\n"
+                    f"{cont(scope)}")
         if kind == "let" and self.cfg.get("writes") and s[1] == ("pvar", "written"):
             return cont(scope)
         if kind == "let":
@@ -915,7 +933,13 @@ class Emitter:
         if e[0] == "mcall" and e[2] == "serialize" and len(e[3]) == 1 and e[3][0][0] == "path" and e[3][0][1] == [ser]:
             key = self.rust_text(e[1])
             if key in self.cfg.get("serializes", {}):
-                return ("list", self.cfg["serializes"][key])
+                v = self.cfg["serializes"][key]
+                if isinstance(v, tuple):
+                    width = self.cfg.get("type_widths", {}).get(v[1])
+                    if width is None:
+                        raise Untranslatable("width of type not known from the source: " + v[1])
+                    return ("one", v[0], str(width))
+                return ("list", v)
             raise Untranslatable("serialize of an unmapped value: " + key)
         return None
 
@@ -1053,6 +1077,34 @@ def contains_loop(b):
     if isinstance(b, list):
         return any(contains_loop(x) for x in b)
     return False
+
+
+def let_initialiser(body_text, var):
+    """source text of the initialiser of the first `let [mut] <var>[: T] = …;` in a function body"""
+    m = re.search(r"\blet\s+(?:mut\s+)?%s\b[^=;]*=\s*" % re.escape(var), body_text)
+    if not m:
+        raise Untranslatable(f"`let {var}` not found")
+    depth = 0
+    for j in range(m.end(), len(body_text)):
+        c = body_text[j]
+        if c in "([{":
+            depth += 1
+        elif c in ")]}":
+            depth -= 1
+        elif c == ";" and depth == 0:
+            return body_text[m.end():j]
+    raise Untranslatable("unterminated let")
+
+
+def translate_expr(name, expr_text, cfg):
+    """Lean `def` whose body is the translation of one Rust expression"""
+    p = Parser(tokenize(expr_text))
+    e = p.expr()
+    if p.peek()[0] != "eof":
+        raise Untranslatable("trailing tokens after the expression")
+    em = Emitter(name, cfg)
+    sig = " ".join(f"({q} : {t})" for q, t in cfg["params"])
+    return f"def {name} {sig} : {cfg['ret']} :=\n  {em.ex(e)}\n"
 
 
 def translate(name, body_text, cfg):
